@@ -1,9 +1,11 @@
 use crate::common::*;
 pub mod rel;
+pub mod offset;
 
 pub fn run(family: &str, opts: &Opts) -> Option<Report> {
     match family {
         "rel" => Some(rel::run(opts)),
+        "offset" => Some(offset::run(opts)),
         _ => None,
     }
 }
@@ -12,6 +14,7 @@ pub fn run(family: &str, opts: &Opts) -> Option<Report> {
 pub fn exec_line(line: &str) -> Option<String> {
     match line.split_whitespace().next() {
         Some("rel") => Some(rel::exec_line(line)),
+        Some("off") => Some(offset::exec_line(line)),
         _ => None,
     }
 }
